@@ -38,6 +38,9 @@ pub enum Add {
     ExportFunc { f: u32 },
     ExportMem { m: u32 },
     ModInit { g: u32, init: Init },
+    /// add_import_func: not judged itself (C06 does that), it renumbers the function index space around
+    /// the other additions (a ref.func initialiser, a function export added before or after it)
+    ImportFunc,
 }
 
 #[derive(Clone, Debug, Serialize, Deserialize)]
@@ -207,6 +210,11 @@ fn run_case(c: &Case) -> Outcome {
                     let (expr, _) = init_real(init);
                     module.mod_global_init_expr(GlobalID(*g), expr);
                     modinit.push((*g, init_expected(init).0));
+                }
+                Add::ImportFunc => {
+                    let ty = module.types.add_func_type(&[], &[], None);
+                    module.add_import_func("added".into(), format!("f{}", k), ty);
+                    exp_imports.push(("added".into(), format!("f{}", k)));
                 }
             }
         }
@@ -500,6 +508,7 @@ fn alphabet(base: usize) -> Vec<Add> {
     for f in 0..nf {
         v.push(Add::ExportFunc { f });
     }
+    v.push(Add::ImportFunc);
     let n_imp = b.global_imports.len() as u32;
     for (i, g) in b.local_globals.iter().enumerate() {
         if g.ty == "i32" {
@@ -568,7 +577,7 @@ pub fn check(tier: Tier) -> i32 {
         }
     }
     run.rule = format!(
-        "all histories of length <= 2 (thorough: <= 3 over a reduced alphabet) of module-level additions on {} bases (empty, rich, imports-only, locals-only): add_global x 7 value types x boundary / NaN-payload / top-bit-set v128 / global.get / ref.func / ref.null initialisers x mutability; add_imported_global; add_data passive / active (every memory, constant or global.get offset) x payload sizes 0/1/3/300; add_local_memory x limit shapes (max, shared, memory64, > 2^32 pages); add_import_memory; exports.add_export_func/mem for every function / memory; mod_global_init_expr. Oracle: the item designated by the RETURNED ID (resolved through an injected global.get, an export, or the data index) has exactly the requested type, limits, bytes and bit-exact initialiser; replaced initialisers change nothing else; the output validates.",
+        "all histories of length <= 2 (thorough: <= 3 over a reduced alphabet) of module-level additions on {} bases (empty, rich, imports-only, locals-only): add_global x 7 value types x boundary / NaN-payload / top-bit-set v128 / global.get / ref.func / ref.null initialisers x mutability; add_imported_global; add_data passive / active (every memory, constant or global.get offset) x payload sizes 0/1/3/300; add_local_memory x limit shapes (max, shared, memory64, > 2^32 pages); add_import_memory; exports.add_export_func/mem for every function / memory; mod_global_init_expr; add_import_func as an index-shifting companion of the others. Oracle: the item designated by the RETURNED ID (resolved through an injected global.get, an export, or the data index) has exactly the requested type, limits, bytes and bit-exact initialiser; replaced initialisers change nothing else; the output validates.",
         BASES.len()
     );
     run.run_cases("addition histories", &cases, run_case);
